@@ -13,6 +13,7 @@ from .sorts import (VInt, VBool, VU, VNone, VOpt, VSlice, VTuple, VList, VRec, V
                     define_record)
 from .engine import Engine, SpecError, Obligation
 from .menv import Repo, ModuleEnv
+from .npmodel import NpModuleEnv, install_records, DTYPE_AXIOMS, arr_wellformed
 
 CVC5 = '/usr/bin/cvc5'
 
@@ -103,6 +104,7 @@ def verify_target(repo_root: str, relpath: str, qualname: str, contract: dict, r
     rep = dict(fn=f'{relpath}:{qualname}', relpath=relpath, qualname=qualname, obligations=[], unsupported=[],
                status='ok', props=contract.get('props', []))
     try:
+        install_records()
         for name, fields in records.items():
             define_record(name, fields)
         repo = Repo(repo_root)
@@ -118,7 +120,7 @@ def verify_target(repo_root: str, relpath: str, qualname: str, contract: dict, r
             rep['status'] = 'spec-drift'
             rep['detail'] = f'loop count changed: contract expects {contract.get("n_loops")}, source has {n_loops}'
             return rep
-        menv = ModuleEnv(repo, relpath, registry, consts)
+        menv = NpModuleEnv(repo, relpath, registry, consts)
         eng = Engine(node, contract, registry, menv, qualname, cls_name=cls)
         obs = eng.run()
         body_stmts = [n for n in ast.walk(node) if isinstance(n, ast.stmt) and n is not node
